@@ -32,6 +32,19 @@ REGISTRATION = {
 
 MODULES = ["OllamaVerif.Properties.C06"]
 THEOREMS = [
+    "OllamaVerif.C06.mask_exact",
+    "OllamaVerif.C06.mask_exact_of_covers",
+    "OllamaVerif.C06.startForward_covers",
+    "OllamaVerif.C06.inv_init",
+    "OllamaVerif.C06.inv_defrag",
+    "OllamaVerif.C06.copyPrefix_abs",
+    "OllamaVerif.C06.remove_abs",
+    "OllamaVerif.C06.findStart_fits",
+    "OllamaVerif.C06.F14_defrag_swaps_rows",
+    "OllamaVerif.C06.F15_window_entry_missing",
+    "OllamaVerif.C06.F15b_canResume_unsound",
+    "OllamaVerif.C06.F23_defrag_without_layers",
+    "OllamaVerif.C06.F3_remove_minus_one_is_not_infinity",
 ]
 OVERLAY = {"kvcache/zz_verif_c06_test.go": "kvcache/zz_verif_c06_test.go"}
 
